@@ -1,4 +1,5 @@
 import ArroyProofs.AuditCmd
 import ArroyProofs.Properties.C06
 import ArroyProofs.Properties.C06Build
+import ArroyProofs.Properties.C06History
 #audit Arroy.C06
